@@ -1,10 +1,15 @@
 (* Executable model of kvdb/cachedproducer (producer.go, store.go): both constructors share
    [openDB]; the state is the three Go maps plus the handles handed out so far.
 
-   Repaired code is modelled ([wrap] = Wrap after fixes/C27.patch, [wrap_all] = WrapAll).
-   [wrap_old] is Wrap of the pinned tree: refCounter is a nil map, so the first
+   Each constructor is modelled by its own composite literal: [ctor_maps] lists which of the
+   three maps the Go constructor make()s (a field left out of the literal is a nil map), and
+   the state remembers which wrapper it is ([kind]: DBProducer or AllDBProducer), so [wrap]
+   and [wrap_all] are different states and a defect confined to one constructor is visible
+   to the theorems.  Repaired code: [wrap] = Wrap after fixes/C27.patch, [wrap_all] = WrapAll.
+   [wrap_old] is Wrap of the pinned tree: refCounter is missing from the literal, so the first
    `c.refCounter[name]++` panics -- while c.mu is held, hence every later call blocks
-   ([dead]).  Reading a nil map yields 0 and delete on it is a no-op, as in Go.
+   ([dead]).  Assigning to ANY nil map panics; reading a nil map yields the zero value and
+   delete on it is a no-op, as in Go.
 
    Names and store identities are numbers.  The underlying producer is a counting producer:
    every successful underlying OpenDB creates a fresh store [uid]; operations return the
@@ -29,7 +34,12 @@ Definition aset {A} (k : N) (v : A) (m : list (N * A)) : list (N * A) := (k, v) 
 Definition nmem (k : N) (l : list N) : bool := existsb (N.eqb k) l.
 Definition nrem (k : N) (l : list N) : list N := filter (fun x => negb (k =? x)) l.
 
+Inductive ctor := KWrap | KWrapAll.      (* *DBProducer / *AllDBProducer *)
+
 Record cstate := mkC {
+  kind : ctor;
+  opened_nil : bool;           (* c.opened == nil *)
+  nd_nil : bool;               (* c.notDropped == nil *)
   opened : list (N * N);       (* c.opened : name -> uid of the cached StoreWithFn *)
   ref_nil : bool;              (* c.refCounter == nil *)
   refc : list (N * N);         (* c.refCounter : name -> count (entries are >= 1) *)
@@ -38,9 +48,17 @@ Record cstate := mkC {
   next_uid : N;                (* underlying producer: next fresh store id *)
   dead : bool }.               (* panicked while holding c.mu *)
 
-Definition wrap_all : cstate := mkC [] false [] [] [] 0 false.
-Definition wrap : cstate := mkC [] false [] [] [] 0 false.       (* after the repair *)
-Definition wrap_old : cstate := mkC [] true [] [] [] 0 false.    (* pinned tree *)
+(* which maps the constructor's composite literal initialises with make() *)
+Record ctor_maps := mkMaps { m_opened : bool; m_refCounter : bool; m_notDropped : bool }.
+Definition construct (k : ctor) (m : ctor_maps) : cstate :=
+  mkC k (negb (m_opened m)) (negb (m_notDropped m)) [] (negb (m_refCounter m)) [] [] [] 0 false.
+
+(* WrapAll: opened, refCounter, notDropped *)
+Definition wrap_all : cstate := construct KWrapAll (mkMaps true true true).
+(* Wrap after the repair: opened, refCounter, notDropped *)
+Definition wrap : cstate := construct KWrap (mkMaps true true true).
+(* Wrap of the pinned tree: opened, notDropped *)
+Definition wrap_old : cstate := construct KWrap (mkMaps true false true).
 
 Inductive uevent := UOpen (name uid : N) | UOpenFail (name : N) | UClose (uid : N) | UDrop (uid : N).
 
@@ -58,23 +76,32 @@ Definition count_of (name : N) (s : cstate) : N :=
 Definition ref_incr (name : N) (s : cstate) : option (list (N * N)) :=
   if ref_nil s then None else Some (aset name (count_of name s + 1) (refc s)).
 
+Definition die (s : cstate) : cstate :=
+  mkC (kind s) (opened_nil s) (nd_nil s) (opened s) (ref_nil s) (refc s) (notdropped s) (handles s) (next_uid s) true.
+
 Definition open_db (name : N) (fail : bool) (s : cstate) : cstate * cres * list uevent :=
+  (* c.notDropped[name] = true *)
+  if nd_nil s then (die s, RPanic, []) else
   let nd := if nmem name (notdropped s) then notdropped s else name :: notdropped s in
   match alookup name (opened s) with
   | Some uid =>
       match ref_incr name s with
-      | Some rc => (mkC (opened s) (ref_nil s) rc nd (handles s) (next_uid s) false, RHandle uid, [])
-      | None => (mkC (opened s) (ref_nil s) (refc s) nd (handles s) (next_uid s) true, RPanic, [])
+      | Some rc => (mkC (kind s) (opened_nil s) (nd_nil s) (opened s) (ref_nil s) rc nd (handles s) (next_uid s) false, RHandle uid, [])
+      | None => (mkC (kind s) (opened_nil s) (nd_nil s) (opened s) (ref_nil s) (refc s) nd (handles s) (next_uid s) true, RPanic, [])
       end
   | None =>
-      if fail then (mkC (opened s) (ref_nil s) (refc s) nd (handles s) (next_uid s) false, ROpenErr, [UOpenFail name])
+      if fail then (mkC (kind s) (opened_nil s) (nd_nil s) (opened s) (ref_nil s) (refc s) nd (handles s) (next_uid s) false, ROpenErr, [UOpenFail name])
       else
         let uid := next_uid s in
-        let op' := aset name uid (opened s) in
         let hs := (uid, name) :: handles s in
+        (* c.opened[name] = store *)
+        if opened_nil s then
+          (mkC (kind s) (opened_nil s) (nd_nil s) (opened s) (ref_nil s) (refc s) nd hs (uid + 1) true, RPanic, [UOpen name uid])
+        else
+        let op' := aset name uid (opened s) in
         match ref_incr name s with
-        | Some rc => (mkC op' (ref_nil s) rc nd hs (uid + 1) false, RHandle uid, [UOpen name uid])
-        | None => (mkC op' (ref_nil s) (refc s) nd hs (uid + 1) true, RPanic, [UOpen name uid])
+        | Some rc => (mkC (kind s) (opened_nil s) (nd_nil s) op' (ref_nil s) rc nd hs (uid + 1) false, RHandle uid, [UOpen name uid])
+        | None => (mkC (kind s) (opened_nil s) (nd_nil s) op' (ref_nil s) (refc s) nd hs (uid + 1) true, RPanic, [UOpen name uid])
         end
   end.
 
@@ -83,16 +110,16 @@ Definition close_h (uid name : N) (s : cstate) : cstate * cres * list uevent :=
   let counter := count_of name s in
   if counter =? 0 then (s, ROverClose, [])
   else if counter =? 1 then
-    (mkC (adel name (opened s)) (ref_nil s) (adel name (refc s)) (notdropped s) (handles s) (next_uid s) false,
+    (mkC (kind s) (opened_nil s) (nd_nil s) (adel name (opened s)) (ref_nil s) (adel name (refc s)) (notdropped s) (handles s) (next_uid s) false,
      ROk, [UClose uid])
   else
-    (mkC (opened s) (ref_nil s) (aset name (counter - 1) (refc s)) (notdropped s) (handles s) (next_uid s) false,
+    (mkC (kind s) (opened_nil s) (nd_nil s) (opened s) (ref_nil s) (aset name (counter - 1) (refc s)) (notdropped s) (handles s) (next_uid s) false,
      ROk, []).
 
 (* DropFn of the handle (uid, name) *)
 Definition drop_h (uid name : N) (s : cstate) : cstate * cres * list uevent :=
   let to_drop := nmem name (notdropped s) in
-  (mkC (opened s) (ref_nil s) (refc s) (nrem name (notdropped s)) (handles s) (next_uid s) false,
+  (mkC (kind s) (opened_nil s) (nd_nil s) (opened s) (ref_nil s) (refc s) (nrem name (notdropped s)) (handles s) (next_uid s) false,
    ROk, if to_drop then [UDrop uid] else []).
 
 Fixpoint newest_handle (name : N) (hs : list (N * N)) : option N :=
